@@ -21,6 +21,9 @@ MENU = [
     ("fix",), ("fix", "-f", "a"), ("fix", "-d", "d1"), ("fix", "-m"), ("fix", "-e"), ("fix", "-d", "parity"),
     ("fix", "-i", "{root}/d2"), ("fix", "-U", "-D"),
     ("pool",), ("touch",), ("rehash",),
+    ("fix", "-S", "0", "-B", "1"), ("fix", "-S", "0", "-B", "2"), ("fix", "-S", "0", "-B", "3"), ("fix", "-S", "0", "-B", "4"),
+    ("fix", "-S", "0", "-B", "5"), ("fix", "-S", "0", "-B", "6"), ("fix", "-S", "2", "-B", "2"), ("fix", "-S", "3", "-B", "3"),
+    ("check", "-S", "1", "-B", "2"), ("fix", "-B", "2", "-f", "a"), ("fix", "-B", "3", "-m"),
 ]
 THREADED = [("sync",), ("scrub", "-p", "full"), ("fix",), ("check",)]
 
@@ -50,6 +53,8 @@ def conditions(cfg):
                      ("write", "d2", "z0", 0, 1), ("write", "d1", "t1", 200, 0, 0)],
         "damaged": [("dmg-data", "d1", "a"), ("rm", "d2", "c"), ("dmg-parity", 0), ("rm", "d1", "ln"), ("rmdir", "d1", "ed")],
         "partial-loss": [("emptydisk", "d1")],
+        # some files of each disk missing, the others intact (a partial fix must not touch the intact ones)
+        "some-missing": [("rm", "d1", "a"), ("rm", "d1", "dir/t0"), ("rm", "d2", "c"), ("rm", "d1", "ln"), ("rmdir", "d1", "ed")],
         "partial-loss-parity": [("lose-parity", 0), ("write", "d2", "n2", 800, 0)],
         "interrupted": [("write", "d1", "n", 1500, 0), ("cmd", "sync", "--test-kill-after-sync"), ("rm", "d2", "c")],
     }
